@@ -61,10 +61,33 @@ struct StateProp : Prop {
 		{ J ph = J::obj(); ph.set("check", true); J post = J::arr(); post.push("quiesce"); ph.set("post", post); phs.push(ph); }
 		int nsteps = (int) r.range(3, thorough ? 40 : 20);
 		int maxt = 1;
+		struct N { std::vector<uint8_t> addr; bool present; bool iface; };
+		std::vector<N> ns; for (auto &b : w.boards) ns.push_back({b.addr, b.present, b.is_iface()});
 		for (int i = 0; i < nsteps; i++) {
 			J ph = J::obj();
 			uint64_t x = r.below(100);
-			if (!is_c08 && x < 25) {
+			if (r.chance(40)) {
+				// the application resets the system while state is populated: everything returns to its initial value, then the start-up traffic counts again
+				J pre = J::arr(); J ro = J::obj(); ro.set("op", "reset"); pre.push(ro); ph.set("pre", pre);
+			} else if (r.chance(70) && ns.size() > 1) {
+				// a board leaves the bus / logs in again (possibly at another address): feedback follows the connectivity
+				size_t k = r.below(ns.size());
+				if (ns[k].addr.empty()) continue;
+				J ev = J::arr(); J e = J::obj(); e.set("at_us", 0); e.set("node", pc::jaddr(ns[k].addr));
+				if (ns[k].present) { e.set("topo", "lost"); ns[k].present = false; }
+				else {
+					e.set("topo", "new");
+					if (!ns[k].iface && r.chance(500)) {
+						// re-login at an address that is free now - preferably one another board has just left (the addresses are swapped)
+						std::vector<uint8_t> na;
+						for (auto &y : ns) if (!y.present && y.addr.size() == 1 && !y.iface && y.addr != ns[k].addr && r.coin()) { bool used = false; for (auto &z : ns) if (z.present && z.addr == y.addr) used = true; if (!used) na = y.addr; }
+						if (na.empty()) { na = {(uint8_t) r.range(70, 120)}; for (auto &y : ns) if (y.addr == na) na.clear(); }
+						if (!na.empty() && ns[k].addr.size() == 1) { e.set("as", pc::jaddr(na)); ns[k].addr = na; }
+					}
+					ns[k].present = true;
+				}
+				ev.push(e); ph.set("bus", ev);
+			} else if (!is_c08 && x < 25) {
 				// user command (sequential, followed by quiesce)
 				J pre = J::arr();
 				J op;
@@ -167,7 +190,7 @@ struct StateProp : Prop {
 	void attach(Engine &e) override {
 		model = sm::Model(); model.init(cfg::from_json(e.plan["world"]));
 		wire_pos = frame_pos = ops_pos = 0; checks = corrupted_seen = span2 = shared2 = snapshot_checks = snapshot_skipped = 0; seg_log.clear(); receiver = -1;
-		vers.clear(); pending_reads.clear(); reader_results_judged = reader_results_overlapping_update = 0; before_wire = nullptr;
+		vers.clear(); pending_reads.clear(); reader_results_judged = reader_results_overlapping_update = 0; before_wire = nullptr; started = reset_pending = false; resets_folded = 0; reset_wire_from = 0;
 		g_seg_log = &seg_log; sim::hooks().on_lock = seg_lock_hook;
 	}
 	void before_stop(Engine &, int) override { g_seg_log = nullptr; sim::hooks().on_lock = nullptr; }
@@ -181,9 +204,16 @@ struct StateProp : Prop {
 			bool has_f = frame_pos < e.bus.done.size() && e.bus.done[frame_pos].processed;
 			if (!has_w && !has_f) break;
 			uint64_t ws = has_w ? e.bus.wire[wire_pos].step : UINT64_MAX, fs = has_f ? e.bus.done[frame_pos].last_read_step : UINT64_MAX;
-			if (ws <= fs) { if (before_wire && wire_pos >= before_wire_from) { before_wire(); before_wire = nullptr; } model.apply_downlink(e.bus.wire[wire_pos].msg); wire_pos++; }
+			if (ws <= fs) {
+				if (before_wire && wire_pos >= before_wire_from) { before_wire(); before_wire = nullptr; }
+				const ref::Msg &wm = e.bus.wire[wire_pos].msg;
+				// a reset issued by the application: the library wipes its track state after the 1.5 s login wait, right before it reads the node table
+				if (wm.type == MSG_SYS_RESET && started) reset_pending = true;
+				else if (reset_pending && wm.type == MSG_NODETAB_GETALL) { reset_pending = false; model.reset_state(); model.set_connected_from_tree(e.bus); resets_folded++; reset_wire_from = wire_pos; }
+				model.apply_downlink(wm); wire_pos++;
+			}
 			else {
-				for (auto &m : e.bus.done[frame_pos].msgs) model.apply_uplink(m);
+				for (auto &m : e.bus.done[frame_pos].msgs) { if (m.type == MSG_NODE_NEW || m.type == MSG_NODE_LOST) topo_events++; model.apply_uplink(m); }
 				if (is_c08 && !vers.empty()) { vers.back().end = e.bus.done[frame_pos].processed_step; Ver v; v.start = e.bus.done[frame_pos].last_read_step; v.pos = presence_now(); vers.push_back(v); }
 				frame_pos++;
 			}
@@ -192,6 +222,20 @@ struct StateProp : Prop {
 	// optimistic effect of a command that is not carried by its message: takes place before the command's own message (and thus
 	// before any answer to it), even if the calling thread returns only after the answer has been processed
 	std::function<void()> before_wire; size_t before_wire_from = 0;
+	bool started = false, reset_pending = false; uint64_t resets_folded = 0; size_t reset_wire_from = 0;
+	// initial values of dcc accessories: the start-up (and a reset) call the same high-level commands
+	void initial_dcc(Engine &e, size_t wire_from) {
+		for (auto &b : model.w.boards) {
+			if (!model.conn[b.id].connected) continue;
+			for (const std::vector<cfg::DccAcc> *v : {&b.points_dcc, &b.signals_dcc}) for (auto &a : *v) if (!a.initial.empty()) {
+				model.set_dcc_state_id(a.id, a.initial);
+				// (the initial commands may still sit behind the response budget when the call returns)
+				int nports = 0; for (auto &as : a.aspects) if (as.id == a.initial) nports = (int) as.ports.size();
+				int seen = 0; for (size_t i = wire_from; i < e.bus.wire.size(); i++) { auto &wr = e.bus.wire[i]; if (wr.msg.type == MSG_CS_ACCESSORY && wr.msg.data.size() >= 2 && wr.msg.data[0] == a.addrl && wr.msg.data[1] == a.addrh) seen++; }
+				model.pending_hl[a.id] += std::max(0, nports - seen);
+			}
+		}
+	}
 
 	// ---- C08, concurrent readers: presence versions. Version k = presence as of uplink frame k; it can be what a reader sees from the
 	// delivery of frame k (start) until frame k+1 is known to be processed (end). A reader's result must equal some version whose
@@ -200,7 +244,7 @@ struct StateProp : Prop {
 	std::vector<Ver> vers;
 	struct PendingRead { std::string fn, train; J result; uint64_t inv, ret; };
 	std::vector<PendingRead> pending_reads;
-	uint64_t reader_results_judged = 0, reader_results_overlapping_update = 0;
+	uint64_t reader_results_judged = 0, reader_results_overlapping_update = 0, topo_events = 0;
 	std::map<std::string, std::vector<std::string>> presence_now() {
 		std::map<std::string, std::vector<std::string>> p;
 		for (auto &t : model.w.trains) { std::vector<std::string> segs; for (auto &b : model.w.boards) for (auto &g : b.segs) for (auto &a : model.sg[g.id].addrs) if (a[0] == t.addrl && a[1] == t.addrh) segs.push_back(g.id); std::sort(segs.begin(), segs.end()); segs.erase(std::unique(segs.begin(), segs.end()), segs.end()); p[t.id] = segs; }
@@ -239,21 +283,13 @@ struct StateProp : Prop {
 		model.set_connected_from_tree(e.bus);
 		// messages that arrived before the library reset its state (during the connection probe) do not count
 		ingest(e);
-		// initial values of dcc accessories: the start-up calls the same high-level commands
-		for (auto &b : model.w.boards) {
-			if (!model.conn[b.id].connected) continue;
-			for (const std::vector<cfg::DccAcc> *v : {&b.points_dcc, &b.signals_dcc}) for (auto &a : *v) if (!a.initial.empty()) {
-				model.set_dcc_state_id(a.id, a.initial);
-				// (the initial commands may still sit behind the response budget when the start returns)
-				int nports = 0; for (auto &as : a.aspects) if (as.id == a.initial) nports = (int) as.ports.size();
-				int seen = 0; for (auto &wr : e.bus.wire) if (wr.msg.type == MSG_CS_ACCESSORY && wr.msg.data.size() >= 2 && wr.msg.data[0] == a.addrl && wr.msg.data[1] == a.addrh) seen++;
-				model.pending_hl[a.id] += std::max(0, nports - seen);
-			}
-		}
+		initial_dcc(e, 0);
+		started = true;
 	}
 
 	void after_op(Engine &e, OpRec &o) override {
 		const std::string &k = o.op->gets("op");
+		if (k == "reset") { ingest(e); initial_dcc(e, reset_wire_from); if (is_c08 && !vers.empty()) { vers.back().end = sim::step(); Ver v; v.start = o.inv_step; v.pos = presence_now(); vers.push_back(v); } return; }
 		if (is_c08 && k == "get" && (o.op->gets("fn") == "train_position" || o.op->gets("fn") == "train_on_track") && (*o.op)["s"].size() > 0 && (*o.op)["s"][0].is_str()) {
 			if (vers.empty()) { ingest(e); Ver v; v.pos = presence_now(); vers.push_back(v); }
 			pending_reads.push_back(PendingRead{o.op->gets("fn"), (*o.op)["s"][0].str(), o.result, o.inv_step, o.ret_step});
@@ -346,7 +382,7 @@ struct StateProp : Prop {
 		f.set("nontrivial", is_c08 ? (span2 > 0 || shared2 > 0) : (model.unknown_targets > 0 && model.list_valued > 0));
 		f.set("shape", (long long) (pc::shape_hash(e.plan) >> 1));
 		J p = J::obj(); p.set("state_comparisons", (long long) checks); p.set("unknown_target_messages", (long long) model.unknown_targets); p.set("list_valued_messages", (long long) model.list_valued);
-		p.set("corrupted_copies_delivered", (long long) corrupted_seen);
+		p.set("corrupted_copies_delivered", (long long) corrupted_seen); p.set("application_resets_folded", (long long) resets_folded); p.set("topology_notices", (long long) topo_events);
 		if (is_c08) { p.set("train_spanning_two_segments", (long long) span2); p.set("segment_with_two_addresses", (long long) shared2); p.set("consistent_snapshots_checked", (long long) snapshot_checks); p.set("concurrent_presence_results_judged", (long long) reader_results_judged); p.set("concurrent_presence_results_overlapping_an_update", (long long) reader_results_overlapping_update); p.set("snapshots_overlapping_an_update", (long long) snapshot_skipped); }
 		f.set("probes", p);
 	}
